@@ -512,6 +512,14 @@ impl Ms {
                         uniq.push(v.clone());
                     }
                 }
+                if !hostile && over.is_none() && matches!(self.prop, "C06" | "C03") && h.rng.chance(1, 5) {
+                    // a group larger than one listing page: further members who never vote
+                    let extra = h.rng.range(8, 30);
+                    for i in 0..extra {
+                        uniq.push((mk_addr(&format!("member-{i:02}")), 1 + h.rng.below(3)));
+                    }
+                    h.out.count("flex_worlds_with_more_than_ten_group_members");
+                }
                 let listed: Vec<(String, u64)> = if hostile { voters.clone() } else { uniq.clone() };
                 if listed.len() != uniq.len() {
                     h.out.count("group_instantiate_attempts_with_repeated_member");
@@ -547,7 +555,21 @@ impl Ms {
                 w.group = Some(g.clone());
                 w.executor = match h.rng.below(4) {
                     0 => Some(ExecCfg::Member),
-                    1 => Some(ExecCfg::Only(pl.actors[h.rng.below_usize(3)].clone())),
+                    1 => {
+                        let a = pl.actors[h.rng.below_usize(3)].clone();
+                        // now and then an executor that is no valid address: nobody (but that exact sender) may execute
+                        Some(ExecCfg::Only(match h.rng.below(6) {
+                            0 => {
+                                h.out.count("flex_worlds_with_an_unusable_executor_address");
+                                a.to_uppercase()
+                            }
+                            1 => {
+                                h.out.count("flex_worlds_with_an_unusable_executor_address");
+                                "not-an-address".to_string()
+                            }
+                            _ => a,
+                        }))
+                    }
                     _ => None,
                 };
                 if let Some(o) = &over {
@@ -1989,6 +2011,7 @@ impl Monitor for Ms {
         match self.prop {
             "C03" => vec!["directed_scenarios_completed", "observations_with_18_decimal_thresholds", "list_queries_compared_with_point_queries", "histories_fixed", "histories_flex", "observed_open", "observed_passed", "observed_rejected", "executes_ok", "closes_ok", "passed_only_at_expiry_or_after", "tallies_all_abstain_or_no_yes"],
             "C05" => vec![
+                "flex_worlds_with_an_unusable_executor_address",
                 "directed_scenarios_completed",
                 "reentrant_execute_calls_ok",
                 "histories_fixed",
@@ -2006,6 +2029,7 @@ impl Monitor for Ms {
                 "status_moves_Open_to_Rejected",
             ],
             "C06" => vec![
+                "flex_worlds_with_more_than_ten_group_members",
                 "point_queries_compared_with_listings",
                 "directed_scenarios_completed",
                 "histories_fixed",
@@ -2038,9 +2062,9 @@ impl Monitor for Ms {
     }
     fn rule(&self) -> &'static str {
         match self.prop {
-            "C03" => "seeded random histories on cw3-fixed-multisig and cw3-flex-multisig(+cw4-group) inside a cw-multi-test App: voter sets of 1-6 with weights incl. 0 and 2^61, all three threshold kinds on a 9-decimal grid, propose/vote(yes,no,abstain,veto)/execute/close by members and outsiders, block/time advances onto expiry-1/0/+1. After every step every proposal's status, threshold(+total) and paged ballots are read back and the status is compared with the exact reference rules (pass_final when expired, pass-for-every-completion before). distinct = (multisig kind, operation, outcome, target status before, target expired?, rule kind)",
+            "C03" => "seeded random histories on cw3-fixed-multisig and cw3-flex-multisig(+cw4-group) inside a cw-multi-test App: voter sets of 1-6 with weights incl. 0 and 2^61, all three threshold kinds on a grid of 9- and 18-decimal fractions (the latter judged with a one-vote tolerance), six directed scenarios incl. token-sized weights two votes short of 2/3, propose/vote(yes,no,abstain,veto)/execute/close by members and outsiders, block/time advances onto expiry-1/0/+1. After every step every proposal's status, threshold(+total) and paged ballots are read back and the status is compared with the exact reference rules (pass_final when expired, pass-for-every-completion before); ListProposals and ReverseProposals are paged to the end and every entry compared with the point query. distinct = (multisig kind, operation, outcome, target status before, target expired?, rule kind)",
             "C05" => "same world as C03 with 3-5 concurrent proposals whose messages carry unique ids (sink pings, bank sends to fresh recipients) or call back into the multisig (Execute same/other id, Close, Vote), sink failure toggled between attempts, all executor settings. After every step the committed sink log and recipient balances are compared with the proposals that became Executed in that step; lifecycle moves, ids, content and expiry clamp are checked at every observation. distinct = (multisig kind, operation, outcome, target status before, target expired?, rule kind)",
-            "C06" => "same world as C03; fixed: voter lists with repeated addresses and zero weights; flex: group updates (add/remove/re-weight) by the group admin and strangers placed before, in the same block as, and after Propose and each Vote. The monitor keeps its own per-block shadow of the group and compares every listed ballot and total_weight with the snapshot at the start of the proposal's block. distinct = (multisig kind, operation, outcome, target status before, target expired?, rule kind)",
+            "C06" => "same world as C03; fixed: voter lists with repeated addresses and zero weights; flex: group updates (add/remove/re-weight) by the group admin and strangers placed before, in the same block as, and after Propose and each Vote. The monitor keeps its own per-block shadow of the group and compares every listed ballot and total_weight with the snapshot at the start of the proposal's block; the Vote and Voter point queries and ListVoters must agree with the ballot listing / the membership after every step. distinct = (multisig kind, operation, outcome, target status before, target expired?, rule kind)",
             _ => "cw3-flex-multisig with native or cw20 proposal deposits, refund_failed_proposals on/off: propose with right/missing/short/excess/other-denom/two-coin funds or varying cw20 allowance, vote, execute, close over up to 5 concurrent proposals; deposit-token balances of all actors and the multisig are compared before/after every call with a per-proposal ledger; at the end time jumps past every expiry and Close by a stranger must recover each failed proposal's deposit when refunds are enabled. distinct = (multisig kind, operation, outcome, target status before, target expired?, rule kind)",
         }
     }
